@@ -43,6 +43,7 @@ type c11Case struct {
 	J      int       `json:"j"`
 	Procs  int       `json:"procs"`
 	Rounds int       `json:"rounds"`
+	Iter   int       `json:"iter,omitempty"` // evaluations per goroutine and round (0 = 1)
 	Want   []c10Out  `json:"want,omitempty"` // isolated outcomes, computed by the driver (the worker never calls value.New while goroutines of an earlier case may still run)
 }
 
@@ -70,6 +71,12 @@ func c11RunRound(s *c10Session, c *c11Case, want []c10Out) c11Round {
 				runtime.Gosched()
 			}
 			outs[i] = c10Eval(fn.f, c.Argss[i], c.J, c.Prog.Coq != "")
+			for k := 1; k < c.Iter; k++ {
+				o := c10Eval(fn.f, c.Argss[i], c.J, c.Prog.Coq != "")
+				if o.Kind != want[i].Kind || o.String() != want[i].String() {
+					outs[i] = o // keep a wrong one
+				}
+			}
 		}(i)
 	}
 	for atomic.LoadInt32(&ready) < int32(n) {
@@ -276,6 +283,30 @@ func c11StagePool() []*c10Prog {
 	return ps
 }
 
+// ---------------------------------------------------------------- constants that are CLOSURES returned by built-ins
+
+// Pure built-ins that return a closure (or a map of closures) are folded at Generate time when their arguments
+// are constants: the returned Go closure - with whatever it captured - is then a constant shared by all
+// evaluations (value/value.go createLowPass -> iirApply / iirCombine; value/list.go CreateInterpolation,
+// Linear).  Prediction: they capture immutable data only; a race report or a wrong outcome is an unpredicted
+// violation with signature unpredicted/closure-const:<name>.
+func c11ClosureConstPool() []*c10Prog {
+	mk := func(name, src string) *c10Prog {
+		p := c10Opaque(name, src)
+		p.Class = "closure-const:" + name
+		return p
+	}
+	table := "[{x:0,y:0},{x:1,y:1},{x:2,y:4},{x:3,y:9},{x:4,y:16},{x:5,y:25},{x:6,y:36}]"
+	return []*c10Prog{
+		mk("lowpass-iirApply", "let lp=createLowPass(\"f\",p->p.t,p->p.s,0.5); numbers(16).map(i->{t:i/10+a0, s:i*a1+a0}).iirApply(lp).map(p->p.f).reduce((a,b)->a+b)"),
+		mk("lowpass-iirCombine", "let lp=createLowPass(\"f\",p->p.t,p->p.s,0.5); numbers(16).map(i->{t:i/10+a0, s:i*a1+a0}).iirCombine(lp.initial,lp.filter).map(p->p.f).reduce((a,b)->a+b)"),
+		mk("lowpass-initial", "let lp=createLowPass(\"f\",p->p.t,p->p.s,0.5); numbers(20).map(i->lp.initial({t:i+a0,s:i*a1}).f).reduce((a,b)->a+b)"),
+		mk("interpolation", "let f="+table+".createInterpolation(p->p.x,p->p.y); numbers(60).map(i->f(((i*7+a0*13)%60)/10)).reduce((a,b)->a+b)+a1"),
+		mk("interpolation-one-call", "let f="+table+".createInterpolation(p->p.x,p->p.y); f(a0+a1/10)"),
+		mk("linearReg", "let r=numbers(10).linearReg(i->i,i->2*i+1); numbers(50).map(i->r.lineFunc(i+a0)).reduce((a,b)->a+b)+a1"),
+	}
+}
+
 // ---------------------------------------------------------------- driver
 
 func c11Cases(seed int64, tier string) []*c11Case {
@@ -304,6 +335,15 @@ func c11Cases(seed int64, tier string) []*c11Case {
 			c.Argss = append(c.Argss, []int64{int64(g % 5), int64((g * 7) % 11)})
 		}
 		cases = append(cases, c)
+	}
+	for i, p := range c11ClosureConstPool() {
+		for k := 0; k < 2; k++ {
+			c := &c11Case{ID: len(cases) + 1, Prog: p, J: 100, Procs: []int{16, 2}[(i+k)%2], Iter: 40}
+			for g := 0; g < []int{8, 12}[k]; g++ {
+				c.Argss = append(c.Argss, []int64{int64(g % 6), int64((g * 5) % 7)}) // spread over different table intervals / data
+			}
+			cases = append(cases, c)
+		}
 	}
 	ngs := []int{2, 4, 8, 16}
 	for i, p := range progs {
@@ -367,7 +407,7 @@ func cmdC11(seed int64, tier, outDir string) {
 		hooks[c.ID] = h
 		c.Want = c11Isolated(c)
 		c.Rounds = calm
-		if strings.HasPrefix(c.Prog.Class, "stage:") {
+		if strings.HasPrefix(c.Prog.Class, "stage:") || strings.HasPrefix(c.Prog.Class, "closure-const:") {
 			c.Rounds = calm / 3
 		}
 		if h.touch {
@@ -376,7 +416,18 @@ func cmdC11(seed int64, tier, outDir string) {
 	}
 	bin := c6BuildRace()
 	fmt.Fprintf(os.Stderr, "c11: race worker built after %.1fs\n", time.Since(tStart).Seconds())
-	raced, wrongRace, notRun := c11RacePass(bin, outDir, cases)
+	// under the race detector a few evaluations per goroutine are enough (it reports unordered accesses, they need
+	// not overlap); the many iterations that make a wrong outcome likely run without it (pass B)
+	raceCases := make([]*c11Case, len(cases))
+	for i, c := range cases {
+		cc := *c
+		if cc.Iter > 2 {
+			cc.Iter = 2
+			cc.Rounds = 2
+		}
+		raceCases[i] = &cc
+	}
+	raced, wrongRace, notRun := c11RacePass(bin, outDir, raceCases)
 	fmt.Fprintf(os.Stderr, "c11: race pass done after %.1fs: %d cases raced\n", time.Since(tStart).Seconds(), len(raced))
 	if notRun > 0 {
 		sum.Skipped["race-pass-not-run"] = notRun
